@@ -189,6 +189,12 @@ def c17_oracle(gw, line):
         if size >= 1 and b * size < gw and cap < 15:
             return f"capacity_to_buckets({cap}, size {size}) = {b}: table smaller than one group"
         return None
+    if w[0] == "tlnew":
+        so, ao, ts, ca = map(int, r.split())
+        if ts != so or not is_pow2(ca) or ca < gw or ca < ao:
+            return (f"TableLayout::new for an element of size {so}, alignment {ao} = (size {ts}, ctrl_align {ca}): "
+                    f"not sufficient for the elements and an aligned scan of {gw}-byte groups")
+        return None
     if w[0] == "bmtc":
         m = int(w[1]); c = int(r)
         if m > 0 and not (c < m + 1):
@@ -677,6 +683,11 @@ def gen_calldep_scripts(tier, seed, variant):
     # HashTable: lookups / remove + re-insert / get_many_mut under ANOTHER element's hash
     for i in range(n // 2):
         out.append(gen_table.make_foreign_script(rng, f"xf{seed}_{i}"))
+    # HashTable collision runs (degenerate but lawful hashes: many elements on one hash value, probe
+    # windows without an EMPTY byte) with iter_hash / find / entry: every reference handed out must
+    # point to a live element
+    for i in range(n // 2):
+        out.append(gen_table.make_run_script(rng, f"xq{seed}_{i}"))
     # ... and the in-place rehash with swaps under a hasher that has just turned inconsistent
     for i in range(n // 2):
         out.append(gen_map.make_rehash_script(rng, f"xr{seed}_{i}", table=(i % 4 == 3), switch_rule=rng.choice(
@@ -698,7 +709,7 @@ def gen_layout_scripts(tier, seed, variant):
     rng = random.Random(seed)
     n = 56 if tier == "quick" else 180
     out = []
-    kinds = ["table-1", "table-2", "table-3", "table-6", "table-12", "table-zst", "table-zst64", "table-200", "table-a64", "table-drop", "table-plain"]
+    kinds = ["table-1", "table-2", "table-3", "table-6", "table-12", "table-17", "table-18", "table-zst", "table-zst64", "table-200", "table-a64", "table-drop", "table-plain"]
     for i in range(n):
         r = i % 4
         if r == 0:
@@ -708,7 +719,7 @@ def gen_layout_scripts(tier, seed, variant):
         else:
             out.append(gen_table.make_script(rng, f"y{seed}_{i}", kind=rng.choice(kinds)))
     for i in range(n // 4):
-        out.append(gen_map.make_rehash_script(rng, f"yr{seed}_{i}", table=True, kind=rng.choice(["table-6", "table-12", "table-200", "table-a64", "table-drop", "table-plain"])))
+        out.append(gen_map.make_rehash_script(rng, f"yr{seed}_{i}", table=True, kind=rng.choice(["table-6", "table-12", "table-17", "table-18", "table-200", "table-a64", "table-drop", "table-plain"])))
     # memory safety must survive panicking callbacks too (a destructor that panics while a Drain / IntoIter /
     # clear / retain is releasing elements, a hasher that panics inside a rehash): the (callback x operation) matrix
     for i in range(n // 4):
@@ -787,10 +798,15 @@ def check_c10(run):
         relevant=lambda f: f.kind == "CRASH" or (f.kind in ("A-FAIL", "H-FAIL", "B-FAIL", "K-FAIL") and (op_in(f, ops) or "retain called" in f.text or (f.script or "").startswith(("rm", "rt")))),
         rule="HashMap / HashSet / HashTable histories rich in retain (random keep sets incl. none and all, values bumped through &mut), extract_if (random selections, dropped after 0, 1, some, all results) and drain (consumed 0, 1, some, all); plus removal scripts on collision runs of 3..57 elements (keep / selection sets none, one, some, all; tombstones arise while the operation erases; afterwards the table is refilled and len / capacity / iteration / lookups are observed, every step of such a script is relevant); the harness counts predicate calls (exactly one per element); survivors, yielded elements and the emptied-but-allocated table are compared with the extracted model bit for bit and with the reference map/multiset")
 
+def gen_eq_scripts(tier, seed, variant):
+    rng = random.Random(seed + 23)
+    n = 16 if tier == "quick" else 60
+    return "".join(gen_set.make_eq_script(rng, f"q{seed}_{i}") for i in range(n))
+
 def check_c11(run):
     return script_property(
-        run, gen_clone_scripts,
-        relevant=lambda f: f.kind == "CRASH" or (f.kind in ("A-FAIL", "H-FAIL", "B-FAIL", "C-MISMATCH") and False) or (f.kind in ("A-FAIL", "H-FAIL", "B-FAIL") and (op_in(f, ("o_",)) or any(k in f.text for k in ("clone", "symmetric", "shares an element")))),
+        run, lambda tier, seed, v: gen_clone_scripts(tier, seed, v) + gen_eq_scripts(tier, seed, v),
+        relevant=lambda f: f.kind == "CRASH" or (f.kind in ("A-FAIL", "H-FAIL", "B-FAIL", "C-MISMATCH") and False) or (f.kind in ("A-FAIL", "H-FAIL", "B-FAIL") and (op_in(f, ("o_", "eq")) or any(k in f.text for k in ("clone", "symmetric", "shares an element")))),
         rule="HashMap histories with a second map: clone(), clone_from into targets in every state (unallocated, smaller, equal, larger bucket count, with tombstones), swap, ==; the clone must hold equal elements with fresh serial numbers (no object shared), later operations on one map must leave the other's dump unchanged (checked after every step), clone_from must drop every old target element exactly once and free the old block iff the bucket counts differ (events compared with the extracted model), == must equal the mathematical comparison of the abstract contents and be symmetric; differently seeded hashers via a salted BuildHasher",
         nontrivial_keys=("clone_family_same_buckets", "clone_family_target_smaller", "clone_family_target_larger"))
 
@@ -800,7 +816,7 @@ def gen_capacity_scripts(tier, seed, variant):
     out = []
     for i in range(n):
         if i % 3 == 2:
-            out.append(gen_table.make_script(rng, f"k{seed}_{i}", kind=rng.choice(["table-drop", "table-plain", "table-1", "table-2", "table-3", "table-6", "table-12", "table-3", "table-6", "table-200", "table-zst", "table-zst64"])))
+            out.append(gen_table.make_script(rng, f"k{seed}_{i}", kind=rng.choice(["table-drop", "table-plain", "table-1", "table-2", "table-3", "table-6", "table-12", "table-17", "table-18", "table-3", "table-6", "table-200", "table-zst", "table-zst64"])))
         else:
             out.append(gen_map.make_script(rng, f"k{seed}_{i}"))
     for i in range(n):
@@ -821,7 +837,7 @@ def gen_tryreserve_scripts(tier, seed, variant):
     out = []
     for i in range(n):
         if i % 4 == 3:
-            blk = gen_table.make_script(rng, f"r{seed}_{i}", kind=rng.choice(["table-zst", "table-zst64", "table-1", "table-3", "table-6", "table-200", "table-drop"]))
+            blk = gen_table.make_script(rng, f"r{seed}_{i}", kind=rng.choice(["table-zst", "table-zst64", "table-1", "table-3", "table-6", "table-17", "table-200", "table-drop"]))
             lines = blk.rstrip("\n").split("\n")
             res = []
             for l in lines:
